@@ -16,9 +16,14 @@ and `Rollback`.
 * `rollback_prefix_fails_before_fix` : kernel-checked counter-example for the `Rollback::rollback`
   that did not truncate the buffer (the defect repaired in /repo by commit 2501a78).
 
+* `ptrInvH_emitIter` : the candidate-table invariant of C02 (`PtrInvH`) holds after `emit_iter` in
+  the all-written and in the truncated outcome.
+
 Message-level truncation (`emitLimited_len`, `emitLimited_decodes`, the server path) is stage 2.
 -/
 import HickoryVerif.Lemmas.NameEmitLemmas
+import HickoryVerif.Model.EncoderCombinators
+import HickoryVerif.Proofs.C02
 
 namespace HickoryVerif.C03
 open HickoryVerif HickoryVerif.Name HickoryVerif.C02
@@ -136,17 +141,10 @@ theorem appender_emitU8 (v : Nat) : Appender (fun e => e.emitU8 v) := appender_e
 theorem appender_emitU16 (v : Nat) : Appender (fun e => e.emitU16 v) := appender_emitSlice _
 theorem appender_emitU32 (v : Nat) : Appender (fun e => e.emitU32 v) := appender_emitSlice _
 
-/-- `f(encoder)?; g(encoder)` -/
-def seq (f g : Enc → ERes Unit) (e : Enc) : ERes Unit :=
-  match f e with
-  | .ok _ e' => g e'
-  | .err k e' => .err k e'
-  | .panic s => .panic s
-
-theorem appender_seq {f g : Enc → ERes Unit} (hf : Appender f) (hg : Appender g) : Appender (seq f g) := by
+theorem appender_seq {f g : Enc → ERes Unit} (hf : Appender f) (hg : Appender g) : Appender (Enc.seq f g) := by
   intro base B P M e ha
   have h1 := hf base B P M e ha
-  unfold seq
+  unfold Enc.seq
   cases hfe : f e with
   | ok u e1 => rw [hfe] at h1; exact hg base B P M _ h1
   | err k e1 => rw [hfe] at h1; exact h1
@@ -508,22 +506,6 @@ theorem appender_withRdataBehavior {f : Enc → ERes Unit} (hf : Appender f) (r 
     Appender (fun e => e.withRdataBehavior r f) :=
   appender_restore hf (fun _ c cur => Enc.rdataNameEncoding r c cur)
 
-/-- the RDLENGTH pattern of `Record::emit`: `let place = encoder.place::<u16>()?; body(encoder)?;
-let len = encoder.len_since_place(&place); place.replace(encoder, len as u16)?` -/
-def lenPrefixed (body : Enc → ERes Unit) (e : Enc) : ERes Unit :=
-  match e.place 2 with
-  | .ok start e1 =>
-    match body e1 with
-    | .ok _ e2 =>
-      match e2.lenSincePlace start 2 with
-      | .ok len => e2.placeReplace start 2 (fun x => x.emitU16 len)
-      | .err => .panic "unreachable"
-      | .panic s => .panic s
-    | .err k e2 => .err k e2
-    | .panic s => .panic s
-  | .err k e1 => .err k e1
-  | .panic s => .panic s
-
 theorem appender_place (len : Nat) {base B P M e} (ha : Above base B P M e) :
     Res (e.place len) (fun idx e' => Above base B P M e' ∧ idx = e.offset ∧ e'.offset = e.offset + len)
       (fun e' => Above base B P M e') := by
@@ -542,9 +524,9 @@ theorem appender_place (len : Nat) {base B P M e} (ha : Above base B P M e) :
       exact ha.low
     · simp only [List.length_append, List.length_replicate]; omega
 
-theorem appender_lenPrefixed {body : Enc → ERes Unit} (hb : Appender body) : Appender (lenPrefixed body) := by
+theorem appender_lenPrefixed {body : Enc → ERes Unit} (hb : Appender body) : Appender (Enc.lenPrefixed body) := by
   intro base B P M e ha
-  unfold lenPrefixed
+  unfold Enc.lenPrefixed
   have hp := appender_place 2 ha
   cases hpl : e.place 2 with
   | panic s => trivial
@@ -622,6 +604,98 @@ theorem emitName_respects_max (e : Enc) (n : Name) (happ : e.offset = e.buf.leng
   | err k e' => rw [hr] at h; exact ⟨h.1.fits, h.1.app, h.1.low, h.1.lim⟩
   | panic s => trivial
 
+/-! ### the candidate-table invariant of C02 survives `emit_iter`, truncated or not -/
+
+theorem ptrInvH_starts_lt {H : Nat × Nat → Prop} {e : Enc} (hinv : PtrInvH H e) :
+    ∀ p ∈ e.ptrs, p.1 < e.offset := by
+  intro p hp
+  obtain ⟨ls, en, F, _, h2, h3, _⟩ := hinv p hp
+  have := h2.pos_lt_end
+  omega
+
+theorem ptrInvH_emitIterFrom {H : Nat × Nat → Prop} : ∀ (items : List (Enc → ERes Unit)) (e : Enc) (c : Nat),
+    (∀ it ∈ items, Appender it) → (∀ it ∈ items, InvPreserving it) →
+    e.offset = e.buf.length → PtrInvH H e → (∀ a b, e.offset ≤ a → H (a, b)) →
+    match Enc.emitIterFrom e items c with
+    | .ok _ e' => PtrInvH H e' ∧ e'.offset = e'.buf.length ∧ e.offset ≤ e'.offset
+    | .err (.notAllWritten _) e' => PtrInvH H e' ∧ e'.offset = e'.buf.length ∧ e.offset ≤ e'.offset
+    | _ => True
+  | [], e, c, _, _, happ, hinv, _ => by
+    simp only [Enc.emitIterFrom]; exact ⟨hinv, happ, Nat.le_refl _⟩
+  | item :: rest, e, c, hA, hI, happ, hinv, hH => by
+    have hs : StateOK e := ⟨happ, ptrInvH_starts_lt hinv⟩
+    have hitem := hA item (by simp) _ _ _ _ e (Above.self e hs.1 hs.2)
+    unfold Enc.emitIterFrom
+    simp only
+    cases hie : item e with
+    | ok u e1 =>
+      simp only
+      obtain ⟨h1, h2, h3⟩ := hI item (by simp) H e e1 happ hinv hH hie
+      have ih := ptrInvH_emitIterFrom (H := H) rest e1 (c + 1) (fun it h => hA it (by simp [h]))
+        (fun it h => hI it (by simp [h])) h2 h1 (fun a b hab => hH a b (by omega))
+      cases hr : Enc.emitIterFrom e1 rest (c + 1) with
+      | ok n e' => rw [hr] at ih; exact ⟨ih.1, ih.2.1, by have := ih.2.2; omega⟩
+      | err k e' =>
+        rw [hr] at ih
+        cases k with
+        | notAllWritten c' => exact ⟨ih.1, ih.2.1, by have := ih.2.2; omega⟩
+        | maxSize => trivial
+        | other => trivial
+      | panic s => trivial
+    | err kind ef =>
+      rw [hie] at hitem
+      cases kind with
+      | maxSize =>
+        simp only
+        rw [rollback_above hs hitem.1]
+        exact ⟨hinv, happ, Nat.le_refl _⟩
+      | notAllWritten c' => exact absurd rfl (hitem.2 c')
+      | other => trivial
+    | panic s => trivial
+
+/-- **The compression-candidate invariant of C02 survives `emit_iter`** — when all items were
+written and when it stopped with `NotAllRecordsWritten` and rolled the failed item back (this is
+`ptrInvH_rollback` applied at the rollback point): later sections can keep pointing at earlier
+names, and never at bytes of the dropped record. -/
+theorem ptrInvH_emitIter {H : Nat × Nat → Prop} (items : List (Enc → ERes Unit))
+    (hA : ∀ it ∈ items, Appender it) (hI : ∀ it ∈ items, InvPreserving it) (e : Enc)
+    (happ : e.offset = e.buf.length) (hinv : PtrInvH H e) (hH : ∀ a b, e.offset ≤ a → H (a, b)) :
+    match e.emitIter items with
+    | .ok _ e' => PtrInvH H e' ∧ e'.offset = e'.buf.length ∧ e.offset ≤ e'.offset
+    | .err (.notAllWritten _) e' => PtrInvH H e' ∧ e'.offset = e'.buf.length ∧ e.offset ≤ e'.offset
+    | _ => True :=
+  ptrInvH_emitIterFrom items e 0 hA hI happ hinv hH
+
+/-- a record-shaped item: owner name, type, class, ttl, RDLENGTH place, a name as RDATA written
+under `with_rdata_behavior(StandardRecord)`, back-patch — assembled from the combinators -/
+def recordItem (owner target : Name) : Enc → ERes Unit :=
+  Enc.seq (fun e => Name.emit e owner) <|
+  Enc.seq (fun e => e.emitU16 2) <|
+  Enc.seq (fun e => e.emitU16 1) <|
+  Enc.seq (fun e => e.emitU32 3600) <|
+  Enc.lenPrefixed (fun e => e.withRdataBehavior .standardRecord (fun e1 => Name.emit e1 target))
+
+/-- such an item satisfies both hypotheses of `ptrInvH_emitIter` (and that of `emitIter_prefix`) -/
+theorem recordItem_ok (owner target : Name) (h1 : owner.WF) (h2 : target.WF) :
+    Appender (recordItem owner target) ∧ InvPreserving (recordItem owner target) :=
+  ⟨appender_seq (appender_emitName _) <| appender_seq (appender_emitU16 _) <|
+      appender_seq (appender_emitU16 _) <| appender_seq (appender_emitU32 _) <|
+      appender_lenPrefixed (appender_withRdataBehavior (appender_emitName _) _),
+   invPreserving_seq (invPreserving_emitName _ h1) <| invPreserving_seq (invPreserving_emitU16 _) <|
+      invPreserving_seq (invPreserving_emitU16 _) <| invPreserving_seq (invPreserving_emitU32 _) <|
+      invPreserving_lenPrefixed (invPreserving_withRdataBehavior (invPreserving_emitName _ h2) _)⟩
+
+/-- two NS-like records under a limit of 40 octets: the first fits (25 octets), the second is rolled
+back; the result is the state after the first alone. -/
+example : ((Enc.new []).setMaxSize 40).emitIter [recordItem exCom wwwExCom, recordItem wwwExCom exCom] =
+    .err (.notAllWritten 1)
+      { buf := [2, 101, 120, 3, 99, 111, 109, 0, 0, 2, 0, 1, 0, 0, 14, 16, 0, 6, 3, 87, 87, 87, 192, 0],
+        offset := 24, maxSize := 40,
+        ptrs := [(0, [2, 101, 120, 3, 99, 111, 109]), (3, [3, 99, 111, 109]),
+                 (18, [3, 87, 87, 87, 2, 101, 120, 3, 99, 111, 109])],
+        canonicalForm := false, nameEncoding := .compressed, compressedNameCount := 3 } := by
+  decide
+
 /-! ### the defect that was repaired, and non-vacuity -/
 
 /-- `Rollback::rollback` as it was before the repair: offset and candidate count restored, buffer
@@ -641,7 +715,7 @@ def emitIterFromPreFix (e : Enc) : List (Enc → ERes Unit) → Nat → ERes Nat
 
 /-- a 3-octet item, and an item that writes 2 octets and then 3 more -/
 def itemA : Enc → ERes Unit := fun e => e.emitSlice [1, 2, 3]
-def itemB : Enc → ERes Unit := seq (fun e => e.emitSlice [9, 9]) (fun e => e.emitSlice [8, 8, 8])
+def itemB : Enc → ERes Unit := Enc.seq (fun e => e.emitSlice [9, 9]) (fun e => e.emitSlice [8, 8, 8])
 /-- empty encoder with `set_max_size(6)` -/
 def enc6 : Enc := (Enc.new []).setMaxSize 6
 
